@@ -21,6 +21,10 @@ import (
 // the user given function.
 var errGoexit = errors.New("runtime.Goexit was called")
 
+// errNilPanic stands for the value of a panic(nil) that recover reported as nil
+// (the semantics before Go 1.21, still in force under GODEBUG=panicnil=1).
+var errNilPanic = errors.New("panic called with nil argument")
+
 // A panicError is an arbitrary value recovered from a panic
 // with the stack trace during the execution of given function.
 type panicError struct {
@@ -142,6 +146,7 @@ func (g *Group[K, V]) Forget(key K) {
 func (g *Group[K, V]) doCall(c *call[V], key K, fn func() (V, error)) {
 	normalReturn := false
 	recovered := false
+	panicRecorded := false
 
 	// use double-defer to distinguish panic from runtime.Goexit,
 	// more details see https://golang.org/cl/134395
@@ -175,6 +180,7 @@ func (g *Group[K, V]) doCall(c *call[V], key K, fn func() (V, error)) {
 				// panic has been discarded.
 				if r := recover(); r != nil {
 					c.err = newPanicError(r)
+					panicRecorded = true
 				}
 			}
 		}()
@@ -185,5 +191,12 @@ func (g *Group[K, V]) doCall(c *call[V], key K, fn func() (V, error)) {
 
 	if !normalReturn {
 		recovered = true
+		// fn panicked (a Goexit does not get here). If nothing was recorded above,
+		// it was a panic(nil) for which recover returned nil: c.err still holds
+		// whatever the pooled record carried from an earlier call. Report it to
+		// the leader and the waiting callers like any other panic.
+		if !panicRecorded {
+			c.err = newPanicError(errNilPanic)
+		}
 	}
 }
